@@ -117,6 +117,8 @@ structure Req where
 
 structure Table where
   ticks : Nat
+  /-- rendered as `mk(p,t0)` instances (closures with upvalues; `gen@…` re-uses the closure, no record is allocated) -/
+  closureStyle : Bool
   ntasks : Nat
   global : List Req
   tasks : List (List Req)
@@ -127,12 +129,14 @@ def parseReqs (s : String) : List Req :=
   (s.splitOn ",").filterMap fun t =>
     match t.splitOn ":" with
     | [k, c, tg, g] => some { abs := k == "a", bits := parseHex c, target := tg.toNat!, guard := g.toNat? }
+    | [k, c, tg, g, _] => some { abs := k == "a", bits := parseHex c, target := tg.toNat!, guard := g.toNat? }
     | _ => none
 
 def parseTable (f : List String) : Option Table :=
   match f with
   | _ :: ticks :: nt :: g :: t :: d :: _ =>
-    some { ticks := ticks.toNat!, ntasks := nt.toNat!, global := parseReqs g,
+    some { ticks := ticks.toNat!, closureStyle := nt.endsWith "c",
+           ntasks := (String.ofList (nt.toList.filter Char.isDigit)).toNat!, global := parseReqs g,
            tasks := (t.splitOn ";").map parseReqs, dsp := parseReqs d }
   | _ => none
 
